@@ -696,3 +696,89 @@ def h_forgotten_cap(prune_lu: bool, newcap: int, n_new: int, b_size: int, b_mtim
     if got is not False:
         return "the cap of b.txt was forgotten: it must be uploaded again"
     return True
+
+
+# ---- the caller: tahoe_backup.BackerUpper.check_backupdb_file ------------------------------------------------------------------
+from allmydata.scripts import tahoe_backup as TB, cli as _cli
+hlib.encoded(TB.BackerUpper.check_backupdb_file)
+NOTES.append("backup tool obligation: options come from the real cli.BackupOptions().parseOptions([...]) (parent options and node directory "
+             "hand-built, --node-url given) or are hand-built dicts; the backupdb is a recorder; tahoe_backup.do_http returns a canned check response")
+
+
+class _RecBackupDB(object):
+    def __init__(self, cap, should_check):
+        self.calls = []
+        self.cap, self.sc = cap, should_check
+        self.healthy_calls = 0
+
+    def check_file(self, path, use_timestamps=True):
+        self.calls.append((path, use_timestamps))
+        outer = self
+        return NS(was_uploaded=lambda: (outer.cap if outer.cap else False), should_check=lambda: outer.sc,
+                  did_check_healthy=lambda results: setattr(outer, "healthy_calls", outer.healthy_calls + 1))
+
+
+def _parse_backup_options(with_flag):
+    o = _cli.BackupOptions()
+    o.parent = {"quiet": 0, "node-directory": "/nonexistent/node/directory"}
+    argv = ["--node-url", "http://127.0.0.1:3456"] + (["--ignore-timestamps"] if with_flag else []) + ["/backup/src", "tahoe:backups"]
+    o.parseOptions(argv)
+    return o
+
+
+# the REAL option parser, run once at import (twisted.python.usage cannot run under CrossHair's tracer: AttributeError in its proxy
+# machinery); check_backupdb_file only reads the options
+_PARSED = (_parse_backup_options(True), _parse_backup_options(False))
+
+
+def _backup_options(src):
+    """(options, whether --ignore-timestamps was requested)"""
+    if src == 0:
+        return _PARSED[0], True
+    if src == 1:
+        return _PARSED[1], False
+    val = pick((True, False, 1, 0), src - 2)        # hand-built options, and the 1/0 twisted.python.usage stores for flags
+    return {"ignore-timestamps": val, "node-url": "http://127.0.0.1:3456/", "verbose": 0, "quiet": 0}, bool(val)
+
+
+def h_backup_tool(src: int, has_cap: bool, should_check: bool, http_ok: bool, healthy: bool) -> bool:
+    """
+    pre: 0 <= src <= 5
+    post: _ == True
+    """
+    options, ignore = _backup_options(src)
+    bu = TB.BackerUpper(options)
+    bu.verbosity = 0
+    bu.verboseprint = lambda *a, **kw: None
+    db = _RecBackupDB(b"URI:CHK:recorded" if has_cap else None, should_check)
+    bu.backupdb = db
+    posted = []
+
+    def fake_http(method, url, body=b""):
+        posted.append((method, url))
+        body = b'{"results": {"healthy": %s}}' % (b"true" if healthy else b"false")
+        return NS(status=200 if http_ok else 500, read=lambda: body)
+    saved = TB.do_http
+    TB.do_http = fake_http
+    try:
+        (must_upload, r) = bu.check_backupdb_file("/backup/src/a.txt")
+    finally:
+        TB.do_http = saved
+    if len(db.calls) != 1 or db.calls[0][0] != "/backup/src/a.txt":
+        return "backupdb not asked exactly once about the path"
+    ut = db.calls[0][1]
+    if bool(ut) != (not ignore):
+        return "use_timestamps=%r passed to check_file although --ignore-timestamps was %sgiven (option value %r)" % (
+            ut, "" if ignore else "not ", options["ignore-timestamps"])
+    # reuse only when the database offers a cap and (no check needed, or the check says healthy)
+    want_upload = (not has_cap) or (should_check and not (http_ok and healthy))
+    if must_upload != want_upload:
+        return "must_upload=%r, expected %r" % (must_upload, want_upload)
+    if has_cap and should_check:
+        if len(posted) != 1 or b"URI%3ACHK%3Arecorded" not in posted[0][1].encode("ascii") or "t=check" not in posted[0][1]:
+            return "check request: %r" % (posted,)
+        if db.healthy_calls != (1 if (http_ok and healthy) else 0):
+            return "did_check_healthy calls"
+    elif posted:
+        return "unexpected check request"
+    return True
